@@ -49,6 +49,14 @@ def digest_scope(scope, chunk, chunks):
         chk.scope_chain(4.0, chunk, chunks, "quick", c)
     elif scope == "tags":
         chk.scope_tags(2.5, chunk, chunks, "quick", c)
+    elif scope == "tags2":
+        # pieces carrying two or three tags besides Painted (tag tuples reach the output rows of cut contigs)
+        saved = c01.TAGS
+        c01.TAGS = [(), ("X", "Unloc"), ("Hap1", "Haplotig"), ("B1", "Hap2", "Singleton"), ("Target", "X")]
+        try:
+            chk.scope_tags(2.5, chunk, chunks, "quick", c)
+        finally:
+            c01.TAGS = saved
     return out
 
 
